@@ -240,8 +240,35 @@ def random_ops(rng, tier):
     return ops
 
 
+LONG = (31, 32, 33, 64, 65, 100, 128, 129, 255, 256, 257, 300)
+
+
+def long_ops(rng, tier):
+    """many frames through one writer: counters that only matter after dozens or hundreds of frames"""
+    ops = []
+    for n in LONG * (2 if tier == "quick" else 10):
+        vs = [F.rand_val(rng, rng.choice([5, 5, 40])) if rng.random() < 0.97 else ("x", gen.rand_bytes(rng, 2)) for _ in range(n)]
+        ml = rng.choice([1000, 26])
+        ok = [F.payload(v) for v in vs if F.payload(v) is not None and len(F.payload(v)) <= ml]
+        total = sum(4 + len(p) for p in ok)
+        parts = F.rand_composition(rng, total, rng.choice([1, 3, 7, 64, 100000]))
+        pr = rng.choice([0.0, 0.05, 0.3])
+        evs = []
+        for k in parts:
+            while rng.random() < pr:
+                evs.append(rng.choice(["p", "p", "p", "e", "i", "z"]))
+            evs.append(k)
+        evs += tail(len(vs))
+        pd = rng.choice([0.0, 0.4, 1.0])
+        acts = walk(vs, ml, evs, lambda: rng.random() < pd, implicit=lambda: rng.random() < 0.5, extra_sync=lambda: rng.random() < 0.1, limit=10 ** 6)
+        ops.append(f"awrite {ml} {F.vals_tok(vs)} {F.script_tok(evs)} {','.join(acts) or '-'} #k=sched #complete=1")
+    return ops
+
+
 def mk(name, ops, rule):
-    s = Stream(name, "hio", ops, judge=judge, rule=rule,
+    if name != "replay":
+        ops = F.ctor_expand(ops)      # every 4th scenario once more through with_buffer(..) with some buffer
+    s = Stream(name, "hio", ops, model_ops=[F.ctor_plain(o)[0] for o in ops], judge=F.ctor_judge(judge), rule=rule,
                nontrivial=lambda op, impl: "ok" in impl or "err:" in impl)
     s.shrinkable = False
     return s
@@ -253,6 +280,7 @@ def streams(rng, tier):
         mk("error-events", error_ops(rng, tier), "one Other / Interrupted / accept-0 event at every position, then sync; oracle: one error result, exact frames"),
         mk("rejected-values", reject_ops(rng, tier), "encode failures and over-long values between good ones, idle syncs; oracle: they add nothing"),
         mk("random-walks", random_ops(rng, tier), "seeded random disciplined walks judged by the oracle; undisciplined ones against the model"),
+        mk("long-streams", long_ops(rng, tier), "31..300 values through one writer under chunking, Pendings, error events and drop-then-sync; oracle: exact frames, lengths"),
     ]
 
 
